@@ -140,7 +140,15 @@ def valid_date(d, trail=""):
             and isinstance(trail, str) and _re_blank.fullmatch(trail) is not None)
 
 
-def wellformed_block(b):
+def has_change_text(b):
+    """True when at least one line between header and trailer is a change line proper (not blank)."""
+    return any(not is_blank(l) for l in b["changes"])
+
+
+def wellformed_block(b, boundary_ok=False):
+    """A block of the domain.  With ``boundary_ok`` also a block without any change text (nothing, or
+    only blank lines, between header and trailer): whether that is "well-formed" is arguable, so the
+    oracle of C04 demands nothing of the parser for it - only of what an accepted text turns into."""
     if not isinstance(b, dict):
         return False
     try:
@@ -148,7 +156,7 @@ def wellformed_block(b):
               and valid_urgency(b["urgency"]) and valid_ucomment(b["ucomment"])
               and valid_pairs(b["pairs"])
               and isinstance(b["changes"], list) and all(valid_change_line(l) for l in b["changes"])
-              and any(not is_blank(l) for l in b["changes"])
+              and (boundary_ok or has_change_text(b))
               and valid_author_parts(b["name"], b["email"])
               and valid_date(b["date"], b["dtrail"])
               and isinstance(b["after"], list) and all(is_blank(l) for l in b["after"]))
@@ -157,7 +165,12 @@ def wellformed_block(b):
     return bool(ok)
 
 
-def wellformed(struct):
+def boundary_blocks(struct):
+    """Positions of the blocks without any change text (see wellformed_block)."""
+    return [i for i, b in enumerate(struct["blocks"]) if not has_change_text(b)]
+
+
+def wellformed(struct, boundary_ok=False):
     if not isinstance(struct, dict):
         return False
     lead, blocks = struct.get("lead"), struct.get("blocks")
@@ -165,7 +178,7 @@ def wellformed(struct):
         return False
     if not isinstance(blocks, list) or len(blocks) < 1:
         return False
-    return all(wellformed_block(b) for b in blocks)
+    return all(wellformed_block(b, boundary_ok) for b in blocks)
 
 
 # ------------------------------------------------------------------------------------------
@@ -261,6 +274,15 @@ def struct_labels(struct):
         inner = ch[1:-1] if len(ch) > 2 else []
         if any(is_blank(l) for l in inner):
             labels.add("blank-inside-changes")
+        if not ch:
+            labels.add("trailer-directly-after-header")
+        elif not real:
+            labels.add("only-blank-lines-between-header-and-trailer")
+        if not real:
+            labels.add("no-change-text:%s-block" % ("only" if len(blocks) == 1 else "first" if i == 0 else
+                                                    "last" if i == len(blocks) - 1 else "middle"))
+        if any(re.fullmatch(r"[ \t]{2,}--(?: .*)?", l) for l in real):
+            labels.add("change-text-is-or-starts-with-two-dashes")
         if ch and not is_blank(ch[0]):
             labels.add("no-blank-after-header")
         if ch and not is_blank(ch[-1]):
@@ -598,6 +620,59 @@ _structs_st = {m: _structs(m) for m in (1, 2, 3, 4)}
 
 def structs(max_blocks=4):
     return _structs_st[max_blocks]
+
+
+# ------------------------------------------------------------------------------------------
+# the edges of the grammar (C04): what stands between a header and its trailer may be nothing at
+# all, or blank lines only; a maintainer name or an address may be the empty string; the text of a
+# change line may be, or start with, the two dashes that open a trailer.
+
+# nothing / 1 / 2 blank lines / whitespace-only lines between header and trailer
+NO_CHANGE_TEXT = [[], [""], ["", ""], [" "], ["", "\t"]]
+
+_EDGE_DATE = "Mon, 01 Jan 2001 00:00:00 +0000"
+EDGE_SHAPES = [
+    ("no-lines", {"changes": []}),
+    ("one-blank", {"changes": [""]}),
+    ("two-blanks", {"changes": ["", ""]}),
+    ("ws-only-lines", {"changes": ["  ", "\t"]}),
+    ("no-lines+empty-name", {"changes": [], "name": ""}),
+    ("one-blank+empty-email", {"changes": [""], "email": ""}),
+    ("empty-name", {"name": ""}),
+    ("empty-email", {"email": ""}),
+    ("empty-name-and-email", {"name": "", "email": ""}),
+    ("dashes-only", {"changes": ["", "  --", ""]}),
+    ("dashes-only-tight", {"changes": ["  --"]}),
+    ("dashes-blank", {"changes": ["", "  * item", "   -- ", ""]}),
+    ("dashes-text", {"changes": ["", "  * Pass the options after a bare", "    -- to the helper unchanged", ""]}),
+    ("dashes-first-line", {"changes": ["  -- x", "  * item"]}),
+    ("dashes-last-line", {"changes": ["", "  * item", "  -- y"]}),
+    ("dashes-tab", {"changes": ["", "\t\t-- z", " \t--", ""]}),
+    ("trailer-in-text", {"changes": ["", "  * as in", "      -- Make <make@example.org>  " + _EDGE_DATE, "  * more", ""]}),
+    ("trailer-in-text-at-2", {"changes": ["", "  -- A <a@b.c>  " + _EDGE_DATE, ""]}),
+    ("bare-trailer-in-text", {"changes": ["", "  --  <>  " + _EDGE_DATE, "  --  ", ""]}),
+]
+
+
+def _edge_block(i, after):
+    return {"package": "edge%d" % i, "version": "1.0-%d" % (9 - i), "dists": ["unstable"], "urgency": "low",
+            "ucomment": "", "pairs": [], "changes": ["", "  * entry %d" % i, ""],
+            "name": "Jane Doe", "email": "jane@example.org", "date": "Tue, %02d Jan 2001 10:00:00 +0000" % (9 - i),
+            "dtrail": "", "after": list(after)}
+
+
+def edge_structs():
+    """Every edge shape in the only / first / middle / last block of 1..3 blocks (and in all blocks at
+    once), the blocks separated by one blank line or by none."""
+    for after in ([""], []):
+        for name, over in EDGE_SHAPES:
+            for n in (1, 2, 3):
+                for where in list(range(n)) + (["all"] if n > 1 else []):
+                    blocks = [_edge_block(i, after) for i in range(n)]
+                    for i, b in enumerate(blocks):
+                        if where == "all" or where == i:
+                            b.update({k: (list(v) if isinstance(v, list) else v) for k, v in over.items()})
+                    yield {"lead": [], "blocks": blocks}
 
 
 # values "valid for the format" for the editing histories of C15
